@@ -147,7 +147,7 @@ class AttributeSet:
             Undefined attribute values may have undefined contents; they will
             _usually_ be ``NaN`` or similar, but this is not fully guaranteed.
         """
-        return self.arrow().to_numpy()
+        return _plain(self.arrow()).to_numpy()
 
     def arrow(self) -> pa.Array[Any] | pa.ChunkedArray[Any]:
         """
@@ -192,9 +192,19 @@ class AttributeSet:
             return len(self._vocab)
 
 
+def _plain(arr: pa.Array[Any] | pa.ChunkedArray[Any]):
+    """
+    Decode dictionary-encoded values: converting a chunked dictionary array to
+    NumPy fills its nulls with dictionary entries.
+    """
+    if pa.types.is_dictionary(arr.type):
+        arr = arr.cast(arr.type.value_type)
+    return arr
+
+
 class ScalarAttributeSet(AttributeSet):
     def pandas(self, *, missing: Literal["null", "omit"] = "null") -> pd.Series[Any]:
-        arr = self.arrow()
+        arr = _plain(self.arrow())
         mask = arr.is_valid()
         if missing == "null" or pc.all(mask).as_py():
             return pd.Series(arr.to_numpy(zero_copy_only=False), index=self.ids())
